@@ -86,7 +86,11 @@ func genLemmas(w *World, filter func(l *Lemma) bool) ([]*Obligation, error) {
 			g := ev.boolOf(ev.Eval(l.Goal.E, env))
 			o := vc.oblige("holds", "lemma", tTrue, g, l.Goal.Text, fmt.Sprintf("contracts:%d", l.Line))
 			o.Inputs = vc.Inputs
-			o.Extra = append(o.Extra, rsInstances(rsTerms)...)
+			var wide []int
+			for k := 1; k <= 38; k++ {
+				wide = append(wide, k)
+			}
+			o.Extra = append(o.Extra, rsInstancesK(rsTerms, wide, []int{0, 1, 20, 36, 40})...)
 			if l.Mode == "int" && !l.Export {
 				for _, d := range decs {
 					o.Extra = append(o.Extra, w.exportedInstances(d[0], d[1])...)
